@@ -89,6 +89,8 @@ func runJsonEnc(payload string) string {
 	}
 	w := &chunkWriter{}
 	enc := json.NewEncoder(w, json.EncodeOptions{Line: line, Indent: indent})
+	poisonSink(enc)
+	w.buf, w.chunks = nil, nil
 	class, used := driveSink(enc, ts)
 	res := fmt.Sprintf("%s %d %s %s", class, used, hexOrDash(w.buf), chunkLens(w.chunks))
 	if class == "fin" {
@@ -188,6 +190,8 @@ func runPrettyEnc(payload string) string {
 	}
 	w := &chunkWriter{}
 	enc := pretty.NewEncoder(w)
+	poisonSink(enc)
+	w.buf, w.chunks = nil, nil
 	class, used := driveSink(enc, ts)
 	return fmt.Sprintf("%s %d", class, used)
 }
